@@ -14,7 +14,7 @@ CLAIMED = {
                 note="Trusts SimFS to implement the BufferedReader contract (full reads before EOF), the stdlib gzip module, and read() of the same bytes as the reference (C02 checks that reference against the format model).",
                 tech=TECH + "chunk-size sweep + per-call varying k + default-chunk knob + interleaved readers + one-shot EIO; oracle chunked==whole and byte conservation"),
     "C02": dict(engine="iosim", cat="exploration", ref="§4 C02",
-                text="Seeded search: generated well-formed files (per-format grammar incl. non-canonical spellings, '.' placeholders, CRLF, missing final newline, gzip members) are parsed whole and under sampled / swept chunk schedules; every column of every batch is compared with the value an independent spec-level model assigns to the text. 19 text formats (BED3/6/12, bedGraph, narrowPeak, chrom.sizes, GTF, GFF3, wig-style, SAM, VCF plain / typed INFO / genotypes, GFA, pairs, two-line and wrapped FASTA, FASTQ). A quarter of the runs parse a differently shaped file of the same format first in the same interpreter (process-global parser caches primed). Sampling over bounded files (<= 14 records).",
+                text="Seeded search: generated well-formed files (per-format grammar incl. non-canonical spellings, '.' placeholders, CRLF, missing final newline, gzip members) are parsed whole and under sampled / swept chunk schedules; every column of every batch is compared with the value an independent spec-level model assigns to the text. 19 text formats (BED3/6/12, bedGraph, narrowPeak, chrom.sizes, GTF, GFF3, wig-style, SAM, VCF plain / typed INFO / genotypes, GFA, pairs, two-line and wrapped FASTA, FASTQ). A quarter of the runs parse a differently shaped file of the same format first in the same interpreter (process-global parser caches primed; for typed-INFO VCF also a file declaring the same INFO ids with other Number / Type). Sampling over bounded files (<= 14 records).",
                 note="Trusts the reference model bnpsim/models/text.py (plain int()/float()/split; cross-checked against the repo's example files in the self-test) and SimFS.",
                 tech=TECH + "store-model oracle (generated records) evaluated on every chunk-schedule-induced batch composition"),
     "C12": dict(engine="syncsim", cat="exploration", ref="§4 C12",
@@ -22,7 +22,7 @@ CLAIMED = {
                 note="Judges only library-driven pulling (a caller's own zip/break is a reach probe). Reference for numeric consumers is the same public function on the per-contig dict route.",
                 tech=TECH + "contig-order x cut-set x consumer-pull-pattern schedule with sampled PYTHONHASHSEED per worker; entry-conservation oracle over the delivered history"),
     "C15": dict(engine="iosim", cat="fault_enumeration", ref="§4 C15",
-                text="Fault = corruption of stored bytes: for each sampled well-formed file one violation of each listed class (record marker, FASTQ '+', non-numeric digit, foreign strand symbol, fewer/more columns, a pair of lines whose column deviations cancel, torn tail) is injected at a drawn record position; then all chunk sizes from the largest entry to size+2 x lazy/eager x plain/gzip are enumerated. Every read touching the affected data must raise; FormatException.line_number must lie in the offending record and be identical over the whole schedule.",
+                text="Fault = corruption of stored bytes: for each sampled well-formed file one violation of each listed class (record marker, FASTQ '+', non-numeric digit, foreign strand symbol (replacing, appended to or in front of a valid one), fewer/more columns, a pair of lines whose column deviations cancel, torn tail) is injected at a drawn record position; then all chunk sizes from the largest entry to size+2 x lazy/eager x plain/gzip are enumerated. Every read touching the affected data must raise; FormatException.line_number must lie in the offending record and be identical over the whole schedule.",
                 note="The model's strict validator decides whether the corrupted file is malformed and which line offends; outcomes outside the classes the property lists (e.g. truncated FASTQ record) are counted, not judged.",
                 tech=TECH + "stored-byte corruption / torn-tail fault injection by violation class x record position, chunk-size sweep, must-raise + line-number-invariance oracle"),
     "C17": dict(engine="iosim", cat="exploration", ref="§4 C17",
@@ -30,11 +30,11 @@ CLAIMED = {
                 note="Trusts bnpsim/models/fai.py (cross-checked against the shipped small_genome.fa.fai) and SimFS.",
                 tech=TECH + "chunk-knob-perturbed index construction + random-access seek/read over SimFS + one-shot EIO; substring oracle from an independent faidx model"),
     "C03": dict(engine="iosim", cat="exploration", ref="§4 C03",
-                text="Seeded search over write histories: rows of an in-memory table (all entry types the property lists, FASTA lengths around multiples of the wrap width) cut into pieces and written by successive write(table) / write(stream of pieces) calls, with close + reopen-append at piece boundaries, plain or gzip target, an interleaved second writer, and a one-shot EIO on a write. Oracles: prefix consistency after every step, final bytes == one write of the whole table (header exactly once), canonical layout per the reference model, read-back == table. Sources of the written table: built in memory, read eagerly, read lazily, concatenated selections (integer list + mask) of a larger lazily / eagerly read file; the whole table is handed to the writer as the object itself, parts as slices; value extremes (63-bit integers, 19-digit floats, empty strings) at raised weight.",
+                text="Seeded search over write histories: rows of an in-memory table (all entry types the property lists, FASTA lengths around multiples of the wrap width) cut into pieces and written by successive write(table) / write(stream of pieces) calls, with close + reopen-append at piece boundaries, plain or gzip target, an interleaved second writer, and a one-shot EIO on a write. Oracles: prefix consistency after every step, final bytes == one write of the whole table (header exactly once), canonical layout per the reference model, read-back == table. Sources of the written table: built in memory, read eagerly, read lazily, concatenated selections (integer list + mask) of a larger lazily / eagerly read file, a lazily read file indexed with a permutation; the whole table is handed to the writer as the object itself, parts as slices; value extremes (63-bit integers, 19-digit floats, empty strings) at raised weight.",
                 note="Float text compared by value (rel 1e-6); an empty SAM optional-tags column may be written with or without a trailing tab; typed-INFO VCF tables are not generated (writing them raises, which is not silent).",
                 tech=TECH + "writer actors with restart (close/reopen-append) and EIO faults over SimFS; prefix-consistency invariant + single-write refinement oracle"),
     "C11": dict(engine="streamsim", cat="exploration", ref="§4 C11",
-                text="Seeded search where the schedule is the cut set: for datasets of n <= 8 (quick) / 10 (thorough) entries all 2^(n-1) chunkings are enumerated per sampled dataset and computation (51 computations, track/pileup arithmetic in 12 forms with the constant on either side, location windows by flank / window_size: mean/bincount/quantile/histogram, k-mer counts, groupby, chunk_entries/chunk_lines, streamable user functions, per-chromosome genomic pipelines evaluated with bnp.compute in single/tuple/dict form), in-memory streams and file-backed streams (read_chunks(k) over SimFS); streamed result must equal the same public function on the concatenated table. Cancel and EIO faults in ~12% of runs.",
+                text="Seeded search where the schedule is the cut set: for datasets of n <= 8 (quick) / 10 (thorough) entries all 2^(n-1) chunkings are enumerated per sampled dataset and computation (53 computations, row sums / maxima / means and column means of values under windows of equal and unequal width, track/pileup arithmetic in 12 forms with the constant on either side, location windows by flank / window_size: mean/bincount/quantile/histogram, k-mer counts, groupby, chunk_entries/chunk_lines, streamable user functions, per-chromosome genomic pipelines evaluated with bnp.compute in single/tuple/dict form), in-memory streams and file-backed streams (read_chunks(k) over SimFS); streamed result must equal the same public function on the concatenated table. Cancel and EIO faults in ~12% of runs.",
                 note="Reference = bionumpy's own in-memory result; shapes whose in-memory reference raises are counted inconclusive; histogram with data-dependent edges and ragged axis-0 means are not judged.",
                 tech=TECH + "exhaustive cut-set schedule per sampled dataset + file-level chunk sizes + cancel/EIO faults; streamed == in-memory oracle"),
     "C04": dict(engine="lazysim", cat="exploration", ref="§4 C04",
@@ -42,7 +42,7 @@ CLAIMED = {
                 note="'Only the replaced columns change' is read column-wise: a column replaced in any operand of a concatenation may be re-serialised in all rows (compared by value). Lazy/eager agreement of pure observations is C05's subject. BAM sources are exercised under C16.",
                 tech=TECH + "operation-history scheduler on stateful lazy tables (raw buffer / parsed cache / set values) with a row model as oracle"),
     "C16": dict(engine="iosim", cat="exploration", ref="§4 C16",
-                text="Seeded search: BAM files produced by an independent struct-level encoder (0..6 references, names up to 254 chars, all nine CIGAR ops, odd/even/zero l_seq over the 16-letter code, qualities incl. the 0xFF convention, all tag types, unmapped and placed-unmapped records) with BGZF blocks cut at drawn offsets (inside records and header) on simulated storage; decoded whole and under a chunk-size sweep (k >= largest record), lazy and eager; interval/strand derivation; write-back (whole / mask / permutation / integer list with repeats and skips over equally sized records / stepped slice / stream, lazy and eager source) decoded again by the independent decoder; CIGAR lengths up to 2^28-1; write-back of a decoded table is decoded again by the library and compared field by field; one-shot EIO in 1/8 of runs.",
+                text="Seeded search: BAM files produced by an independent struct-level encoder (0..6 references, names up to 254 chars, all nine CIGAR ops, odd/even/zero l_seq over the 16-letter code, qualities incl. the 0xFF convention, all tag types, unmapped and placed-unmapped records) with BGZF blocks cut at drawn offsets (inside records and header) on simulated storage; decoded whole and under a chunk-size sweep (k >= largest record), lazy and eager; interval/strand derivation; write-back (whole / mask / permutation / integer list with repeats and skips over equally sized records / stepped slice / stream, lazy and eager source) decoded again by the independent decoder; CIGAR lengths up to 2^28-1, operation counts up to 65535; write-back of a decoded table is decoded again by the library and compared field by field; one-shot EIO in 1/8 of runs.",
                 note="Trusts bnpsim/models/bam.py (validated against the repo's example .bam/.sam twins: byte-exact re-encoding). Chunk sizes below the largest record are probed, not judged.",
                 tech=TECH + "BGZF member-layout x chunk-size schedule over SimFS + EIO fault; independent spec-level encoder/decoder as oracle"),
     "C05": dict(engine="lazysim", cat="exploration", ref="§4 C05",
@@ -50,7 +50,7 @@ CLAIMED = {
                 note="Canonical sources only (LF, repr floats, no '.' placeholders, no extra columns) so that C04's intended lazy/eager difference cannot appear; exceptions compare as raised / not raised.",
                 tech=TECH + "lock-step twin execution of operation histories on lazy vs eager tables (step-wise equality oracle)"),
     "C20": dict(engine="lazysim", cat="exploration", ref="§4 C20",
-                text="Seeded search over operation histories on file chunks (lazy and eager, whole or chunked origin, non-canonical text: signs, scientific floats, list-valued, typed-INFO, genotype-matrix and extra columns): every operation is bracketed — the operands' observable state (length, every field value, the bytes the chunk would write) from a fresh replay of the history prefix must equal their state after the operation, and applying the operation twice must give equal results. An API actor additionally calls 48 registry functions (number<->text conversion in signed, unsigned, decimal and scientific batches; interval arithmetic incl. intersect, count_overlap, jaccard; Genome.get_intervals(...).get_mask/get_pileup/merged/clip/extended_to_size/sorted; table sort_by/concatenate/replace/indexing/tolist; reverse complement, k-mers, minimizers, match_string, translate; encoding changes) on live objects of the run under an argument snapshot.",
+                text="Seeded search over operation histories on file chunks (lazy and eager, whole or chunked origin, non-canonical text: signs, scientific floats, list-valued, typed-INFO, genotype-matrix and extra columns): every operation is bracketed — the operands' observable state (length, every field value, the bytes the chunk would write) from a fresh replay of the history prefix must equal their state after the operation, and applying the operation twice must give equal results. An API actor additionally calls 52 registry functions (number<->text conversion in signed, unsigned, decimal and scientific batches; interval arithmetic incl. intersect, count_overlap, jaccard; Genome.get_intervals(...).get_mask/get_pileup/merged/clip/extended_to_size/sorted; table sort_by/concatenate/replace/indexing/tolist; reverse complement, k-mers, minimizers, match_string, translate; encoding changes) on live objects of the run under an argument snapshot.",
                 note="File-chunk clause decided by search; the registry clause is a monitor on sampled live objects, not a search over the registry's input space (stated in the evidence assumptions).",
                 tech=TECH + "snapshot bracket via fresh prefix replay around every operation of a simulated history + API actor on live objects"),
 }
